@@ -3,8 +3,8 @@
    `failing spec_ok cases` (the statement of C07 evaluated on the implementation's output alone; no model function is used). *)
 From Coq Require Import ZArith List Bool.
 Import ListNotations.
-From QCE Require Import Base.Prelude C07.Model.
-From Gen Require Import Ident.
+From QCE Require Import Base.Prelude C07.Model Core.Model Core.Run.
+From Gen Require Import Ident Classes.
 Open Scope Z_scope.
 
 (* one listed measurement as the implementation reports it: identifier, acquisition_index, circuit_level_acquisition_index,
@@ -22,9 +22,22 @@ Record obs := MkObs {
   o_bytag : list (Z * Z * list Z);       (* get_acquisition_indices(AcquisitionTag(q, t)) *)
   o_stim : option (list Z * Z);          (* qubits of the M targets of to_stim(circuit).flattened(), num_measurements *)
   o_uids_ok : bool }.                    (* distinct Python objects <-> distinct unique_identifier *)
+(* the build program in the vocabulary of the Core model (Core/Model.v: the accepted placement / listing / timing semantics):
+   duration settings, outer repetition count, commands; and the implementation's measurements as (qubit, tag, start) in listing
+   order, for the tie between the two *)
+Record coretie := MkTie { t_env : denv; t_reps : Z; t_prog : list cmd; t_impl : list (Z * Z * Z) }.
 Inductive case :=
-| CProg (wellformed implicit : bool) (before : option obs) (after : obs)
+| CProg (wellformed implicit : bool) (before : option obs) (after : obs) (core : option coretie)
 | CError.                                (* the implementation raised *)
+
+(* the measurements of the circuit the Core model builds from the program, unrolled: (qubit, tag, start) in listing order *)
+Definition core_meas (t : coretie) : list (Z * Z * Z) :=
+  let ns := apply_modifiers (t_env t) (t_reps t) (run_prog (t_env t) (t_prog t)) in
+  flat_map (fun e => match l_acq (e_leaf e) with Some (q, tg) => [(q, tg, e_start e)] | None => [] end) (listing (t_env t) ns).
+Definition triple_eqb (a b : Z * Z * Z) : bool :=
+  let '(a1, a2, a3) := a in let '(b1, b2, b3) := b in (a1 =? b1) && (a2 =? b2) && (a3 =? b3).
+Definition core_agrees (c : option coretie) : bool :=
+  match c with None => true | Some t => list_eqb triple_eqb (core_meas t) (t_impl t) end.
 
 Definition zl_eqb := list_eqb Z.eqb.
 Definition mkey (m : meas) : key := (m_q m, m_tag m, m_uid m).
@@ -49,7 +62,7 @@ Definition agree_obs (o : obs) : bool :=
 
 Definition agree (c : case) : bool :=
   match c with
-  | CProg _ _ b a => match b with Some o => agree_obs o | None => true end && agree_obs a
+  | CProg _ _ b a core => match b with Some o => agree_obs o | None => true end && agree_obs a && core_agrees core
   | CError => false
   end.
 
@@ -157,7 +170,7 @@ Fixpoint spec_malformed_from (pre ms : list meas) : bool :=
 
 Definition spec_ok (c : case) : bool :=
   match c with
-  | CProg true implicit _ a => spec_wellformed implicit a
-  | CProg false _ _ a => spec_malformed_from [] (o_meas a)
+  | CProg true implicit _ a _ => spec_wellformed implicit a
+  | CProg false _ _ a _ => spec_malformed_from [] (o_meas a)
   | CError => false
   end.
